@@ -633,7 +633,7 @@ def model_edges(tbs, first_edge=0, polarity=0, quirks=()):
                 preds.add('cut')
             durs = _bit_durations(tb, 'cut' in quirks)
             emits = emits or any(durs) or bool(tb.tail)
-            extra_toggle = False
+            merged = False
             if tb.has_zero_seq() and durs:
                 lead = 0
                 while lead < len(durs) and durs[lead] == 0:
@@ -643,25 +643,43 @@ def model_edges(tbs, first_edge=0, polarity=0, quirks=()):
                     trail += 1
                 if rg['gap'] > 0 and lead % 2 and lead < len(durs):
                     preds.add('lead')
-                    if 'lead' in quirks:
-                        j = len(edges) - 1
-                        while j > 0 and edges[j] != t_emit:
-                            j -= 1
-                        edges[j] += durs[lead]
-                        t += durs[lead]
-                        durs = durs[lead + 1:]
                 if tb.tail and trail % 2:
                     preds.add('trail')
-                    extra_toggle = 'trail' in quirks
-            if durs:
+                if 'lead' in quirks or 'trail' in quirks or 'merge' in quirks:
+                    # Classification only: the same signal written as a merged edge list (a pulse that continues the level
+                    # of the previous one lengthens it), with the two known slips switched on separately.
+                    merged = True
+                    p = q = 0
+                    emitted = False
+                    for d in durs:
+                        if d:
+                            t += d
+                            if p == q:
+                                edges.append(t)
+                                q ^= 1
+                                emitted = True
+                                t_emit = t
+                            elif emitted or rg['gap'] == 0 or 'lead' in quirks:
+                                j = len(edges) - 1
+                                while j > 0 and edges[j] != t_emit:
+                                    j -= 1
+                                edges[j] += d       # slip 'lead' when nothing was emitted yet and a pause lies in between
+                                t_emit = edges[j]
+                            else:
+                                edges.extend((t - d, t))
+                                emitted = True
+                                t_emit = t
+                        p ^= 1
+                    if p != q and not (tb.tail and 'trail' in quirks):
+                        edges.append(t)             # the zero-length toggle left over; slip 'trail' forgets it before a tail
+                    npulses += len(durs)
+            if durs and not merged:
                 acc = list(accumulate(durs, initial=t))
                 edges.extend(acc[1:])
                 if acc[-1] != t:
                     t_emit = acc[-1]
                 t = acc[-1]
                 npulses += len(durs)
-            if extra_toggle:
-                edges.append(t)
             rg['dend'] = len(edges) - 1
             if tb.tail:
                 t += tb.tail
